@@ -3,7 +3,8 @@
 //! separated so the printed document re-reads to the same paragraphs.
 use super::c04::{gen_field_op, Hist, Op, CAT_DOCS};
 use crate::gen::{self, GOpts};
-use crate::rt::{clip, Ctx, Lane};
+use crate::rt::{clip, guard, Ctx, Lane};
+use std::str::FromStr;
 use serde_json::json;
 
 pub fn lanes() -> Vec<Lane> {
@@ -23,7 +24,16 @@ fn hist_lane(ctx: &mut Ctx, idx: u64) {
         let f = super::c03::main_feature(&d.features);
         (d.text, f)
     };
-    let Some(mut h) = Hist::from_text(&text, feat) else {
+    // one start document in four is the live result of a (content-preserving) wrap-and-sort, whose tree is
+    // laid out differently from what the reader builds
+    let normalised = !from_empty && idx % 4 == 1;
+    let start = if normalised {
+        ctx.count("start:wrap_and_sort-result");
+        guard(text.len() + 64, || deb822_lossless::Deb822::from_str(&text).ok().map(|d| d.wrap_and_sort(None, None))).ok().flatten().and_then(|d| Hist::from_doc(d, feat))
+    } else {
+        Hist::from_text(&text, feat)
+    };
+    let Some(mut h) = start else {
         ctx.count("skipped:start-document-rejected");
         return;
     };
